@@ -2176,9 +2176,10 @@ class GroupbyHolistic(Op):
         cols = list(args["cols"])
         g = g[cols[0]] if args.get("series") else g[cols]
         out = getattr(g, args["how"])()
-        if side == "pandas" and args["how"] in ("cov", "corr"):
-            # dask orders the labels of the matrix alphabetically (rows are compared unordered anyway)
-            out = out.sort_index(axis=1)
+        if args["how"] in ("cov", "corr"):
+            # dask orders the labels of the matrix alphabetically on some paths and keeps the selection order on others:
+            # the column order of the matrix is not part of the comparison (rows are compared unordered anyway)
+            out = out[sorted(cols)]
         return out
 
     @staticmethod
